@@ -240,19 +240,27 @@ claim(
 
 claim(
     "C12",
-    "Bounded model checking (Kani/CBMC) of the host-side connection tables of turmoil::net: a SYN is queued iff a listener is bound on "
-    "the destination port and its bind address matches the destination (for a symbolic destination address and source); otherwise the "
-    "request - and with it the connector's one-shot channel - is dropped, which is what the connector observes as ConnectionRefused; "
-    "accept returns queued requests in arrival order; unbinding the listener discards every queued request and frees the port; a "
-    "stream stays in the table until both halves are closed, or it is reset locally or by the peer, and segments for unknown streams "
-    "are answered with RST.",
-    "NARROW CLAIM: the async bodies of TcpStream::connect / TcpListener::accept (World, one-shot receive under an executor, the "
-    "'connector that gave up is skipped' loop, address mirroring) are not executed.",
+    "Bounded model checking (Kani/CBMC) of the host-side connection tables of turmoil::net and of the stream teardown: a SYN is queued "
+    "iff a listener is bound on the destination port and its bind address matches the destination (for a symbolic destination "
+    "address and source); otherwise the request - and with it the connector's one-shot channel - is dropped, which is what the "
+    "connector observes as ConnectionRefused; accept returns queued requests in arrival order, also around a connector that gave up "
+    "(its one-shot channel is closed: it is not accepted, the live ones keep their order); unbinding the listener discards every "
+    "queued request and frees the port; a stream stays in the table until both halves are closed, or it is reset locally or by the "
+    "peer, and segments for unknown streams are answered with RST; and, through the REAL Drop impls of ReadHalf / WriteHalf running "
+    "inside World::enter on a real two-host World: once both halves of a stream are dropped (remote peer or the host itself through "
+    "its own address or 127.0.0.1, with or without a prior shutdown, with unread data on the same-host paths, both drop orders) the "
+    "host's stream table has no entry for it, a graceful close puts exactly one FIN on the link and a shutdown followed by a drop "
+    "no second one.",
+    "The async bodies of TcpStream::connect / TcpListener::accept (one-shot receive under an executor, address mirroring) are not "
+    "executed; dropping a stream with unread data towards a REMOTE peer had no verdict in 15 min (io::Error drop glue in the sibling "
+    "half's drop) and is covered only on the same-host paths.",
     ["host::Tcp::{bind, unbind, accept, receive_from_network, new_stream, stream_count, close_stream_half, reset_stream, is_port_assigned}",
-     "host::matches", "net::SocketPair::new"],
-    "Bounds: one listener (3 bind-address shapes), 1-2 queued requests, one stream; destination port concrete per instance, addresses symbolic; unwind 6.",
-    "connect/accept futures, partitions around the handshake (C03), tcp_capacity overflow panic",
-    CORE_ASSUME,
+     "host::matches", "net::SocketPair::new", "net::tcp::stream::{TcpStream::new, <ReadHalf as Drop>::drop, <WriteHalf as Drop>::drop, "
+     "WriteHalf::poll_shutdown_priv}", "world::World::{new, register, enter, current, send_message}", "top::Topology::enqueue_message"],
+    "Bounds: one listener (3 bind-address shapes), 1-3 queued requests, one stream; two registered hosts, fixed 5 ms latency, no "
+    "random failures for the teardown harnesses; destination port concrete per instance, addresses symbolic; unwind 6-8.",
+    "connect/accept futures, partitions around the handshake (C03), tcp_capacity overflow panic, unread data towards a remote peer",
+    CORE_ASSUME + ["scoped-tls is replaced by the model of /verif/models/scoped-tls (plain static under cfg(kani))"],
 )
 
 claim(
